@@ -7,6 +7,7 @@ package main
 import (
 	"bytes"
 	"crypto/ecdsa"
+	"crypto/elliptic"
 	"encoding/hex"
 	"encoding/json"
 	"fmt"
@@ -201,6 +202,9 @@ type authIn struct {
 	Decode   string `json:"decode,omitempty"` // "" | extra | garbage | wrongtype
 	Sub      string `json:"sub,omitempty"`    // "" expected | other (the other signature message) | twice
 	Seed     int64  `json:"seed"`
+	// scenarios over several sessions (roles fresh-in, fresh-out, relay)
+	Count     int  `json:"count,omitempty"`      // number of successive sessions
+	SameParam bool `json:"same_param,omitempty"` // the other end supplies the same handshake key every time
 }
 
 type sessionEnds struct {
@@ -325,6 +329,12 @@ func runAuth(in authIn) (out caseOut) {
 		if out.oracle == "" {
 			out.oracle = fmt.Sprintf(format, a...)
 		}
+	}
+	switch in.Role {
+	case "fresh-in", "fresh-out":
+		return runFresh(in)
+	case "relay":
+		return runRelay(in)
 	}
 	wSelf, wPeer, wOther := walletOf(in.SelfKey), walletOf(in.PeerKey), walletOf(in.OtherKey)
 	r := rand.New(rand.NewSource(in.Seed))
@@ -582,6 +592,236 @@ func checkAssigned(fail func(string, ...interface{}), gt truth, id, sig []byte, 
 }
 
 // ---------------------------------------------------------------------------
+// scenarios over several sessions: the harness plays the other end itself
+// (it holds no wallet key of anybody: it can only choose handshake keys and
+// replay what it recorded)
+
+const chanName = "verif"
+
+func attackerKey(r *rand.Rand) []byte {
+	_, x, y, err := elliptic.GenerateKey(elliptic.P256(), r)
+	if err != nil {
+		panic(err)
+	}
+	return elliptic.Marshal(elliptic.P256(), x, y)
+}
+
+// incoming: a fresh accepting-side peer of authenticator a receives a SecureRequest carrying `param`.
+func incoming(a *network.Authenticator, param []byte, src []byte) (p *network.Peer, c *capConn, serverParam []byte, msg string) {
+	c = newCapConn()
+	p = network.VerifNewPeer(c, true, "")
+	network.VerifAuthOnPeer(a, p)
+	req := &network.SecureRequest{Channel: chanName, SecureSuites: []network.SecureSuite{network.SecureSuiteNone},
+		SecureAeadSuites: []network.SecureAeadSuite{network.SecureAeadSuiteNone}, SecureParam: param}
+	network.VerifAuthOnPacket(a, p, network.VerifSubSecureRequest, codec.MP.MustMarshalToBytes(req), src)
+	pk := c.take()
+	if len(pk) != 1 || pk[0].Sub != network.VerifSubSecureResponse {
+		return p, c, nil, "accepting end did not answer the SecureRequest"
+	}
+	var resp network.SecureResponse
+	if _, err := codec.MP.UnmarshalFromBytes(pk[0].Payload, &resp); err != nil || resp.SecureError != "" || p.IsClosed() {
+		return p, c, nil, "accepting end refused the SecureRequest"
+	}
+	return p, c, resp.SecureParam, ""
+}
+
+// outgoing: a fresh dialling-side peer of authenticator a; returns the handshake key it sent.
+func outgoing(a *network.Authenticator) (p *network.Peer, c *capConn, clientParam []byte, msg string) {
+	c = newCapConn()
+	p = network.VerifNewPeer(c, false, chanName)
+	network.VerifAuthOnPeer(a, p)
+	pk := c.take()
+	if len(pk) != 1 || pk[0].Sub != network.VerifSubSecureRequest {
+		return p, c, nil, "dialling end did not send a SecureRequest"
+	}
+	var req network.SecureRequest
+	if _, err := codec.MP.UnmarshalFromBytes(pk[0].Payload, &req); err != nil {
+		return p, c, nil, "SecureRequest does not decode"
+	}
+	return p, c, req.SecureParam, ""
+}
+
+// answer: the dialling peer p of a receives a SecureResponse carrying `param`; returns its SignatureRequest.
+func answer(a *network.Authenticator, p *network.Peer, c *capConn, param []byte, src []byte) (*network.SignatureRequest, string) {
+	resp := &network.SecureResponse{Channel: chanName, SecureSuite: network.SecureSuiteNone,
+		SecureAeadSuite: network.SecureAeadSuiteNone, SecureParam: param}
+	network.VerifAuthOnPacket(a, p, network.VerifSubSecureResponse, codec.MP.MustMarshalToBytes(resp), src)
+	pk := c.take()
+	if len(pk) != 1 || pk[0].Sub != network.VerifSubSignatureRequest || p.IsClosed() {
+		return nil, "dialling end did not send a SignatureRequest"
+	}
+	var req network.SignatureRequest
+	if _, err := codec.MP.UnmarshalFromBytes(pk[0].Payload, &req); err != nil {
+		return nil, "SignatureRequest does not decode"
+	}
+	return &req, ""
+}
+
+func dupIndex(l [][]byte) (int, int) {
+	for i := range l {
+		for j := i + 1; j < len(l); j++ {
+			if bytes.Equal(l[i], l[j]) {
+				return i, j
+			}
+		}
+	}
+	return -1, -1
+}
+
+func coqBytesList(l [][]byte) string {
+	var items []string
+	for _, b := range l {
+		items = append(items, hxlib.CoqBytes(b))
+	}
+	return hxlib.CoqList(items)
+}
+
+// runFresh: one Authenticator goes through several successive sessions within a
+// short time; the handshake key it sends must be new every time (whatever the
+// other end supplies), so that the secret of a session belongs to that session only.
+func runFresh(in authIn) (out caseOut) {
+	fail := func(format string, a ...interface{}) {
+		if out.oracle == "" {
+			out.oracle = fmt.Sprintf(format, a...)
+		}
+	}
+	r := rand.New(rand.NewSource(in.Seed))
+	a, _ := network.VerifNewAuthenticator(walletOf(in.SelfKey))
+	other := walletOf(in.PeerKey).Address().ID()
+	var own, supplied, extras [][]byte
+	fixed := attackerKey(r)
+	for i := 0; i < in.Count; i++ {
+		param := fixed
+		if !in.SameParam {
+			param = attackerKey(r)
+		}
+		var p *network.Peer
+		var mine []byte
+		var msg string
+		if in.Role == "fresh-in" {
+			p, _, mine, msg = incoming(a, param, other)
+		} else {
+			var c *capConn
+			p, c, mine, msg = outgoing(a)
+			if msg == "" {
+				_, msg = answer(a, p, c, param, other)
+			}
+		}
+		if msg != "" {
+			fail("session %d: %s", i, msg)
+			p.Close("verif: case done")
+			return
+		}
+		own = append(own, mine)
+		supplied = append(supplied, param)
+		extras = append(extras, network.VerifPeerExtra(p))
+		p.Close("verif: session over")
+	}
+	if i, j := dupIndex(own); i >= 0 {
+		fail("session secret not unique to this session: the authenticator sent the same handshake key in sessions %d and %d (%x); the other end then chooses the secret", i, j, own[i])
+	}
+	if i, j := dupIndex(extras); i >= 0 {
+		fail("session secret not unique to this session: sessions %d and %d derived the same secret", i, j)
+	}
+	out.nontrivial = true
+	out.coq = fmt.Sprintf("(CFresh %s %s %s)", coqBytesList(own), coqBytesList(supplied), coqBytesList(extras))
+	return
+}
+
+// runRelay: three successive sessions, the harness in the middle without any wallet key.
+//   0: it dials the server S and reads S's handshake key Ks
+//   1: the victim V dials it; it answers with Ks and records V's handshake key Kv and V's SignatureRequest
+//   2: it dials S with Kv and replays the recorded SignatureRequest
+// S must not assign V's identity in session 2: V never talked to S.
+func runRelay(in authIn) (out caseOut) {
+	fail := func(format string, a ...interface{}) {
+		if out.oracle == "" {
+			out.oracle = fmt.Sprintf(format, a...)
+		}
+	}
+	r := rand.New(rand.NewSource(in.Seed))
+	wS, wV, wA := walletOf(in.SelfKey), walletOf(in.PeerKey), walletOf(in.OtherKey)
+	aS, nS := network.VerifNewAuthenticator(wS)
+	aV, _ := network.VerifNewAuthenticator(wV)
+	attackerID, victimID := wA.Address().ID(), wV.Address().ID()
+	// session 0 (and Count-1 more probes)
+	var ks []byte
+	for i := 0; i < in.Count; i++ {
+		p0, _, k, msg := incoming(aS, attackerKey(r), attackerID)
+		p0.Close("verif: probe done")
+		if msg != "" {
+			fail("session 0: %s", msg)
+			return
+		}
+		ks = k
+	}
+	// session 1
+	pV, cV, kv, msg := outgoing(aV)
+	if msg != "" {
+		fail("session 1: %s", msg)
+		return
+	}
+	captured, msg := answer(aV, pV, cV, ks, attackerID)
+	extra1 := network.VerifPeerExtra(pV)
+	pV.Close("verif: session 1 over")
+	if msg != "" {
+		fail("session 1: %s", msg)
+		return
+	}
+	// session 2
+	p2, c2, ks2, msg := incoming(aS, kv, attackerID)
+	defer p2.Close("verif: case done")
+	if msg != "" {
+		fail("session 2: %s", msg)
+		return
+	}
+	extra2 := network.VerifPeerExtra(p2)
+	src := victimID
+	if in.Src == "other" {
+		src = attackerID
+	}
+	wsub, wproc, wexists := network.VerifWaitInfo(p2)
+	coqWait := "None"
+	if wexists {
+		coqWait = fmt.Sprintf("(Some (%d, %s))", wsub, hxlib.CoqBool(wproc))
+	}
+	payload := codec.MP.MustMarshalToBytes(captured)
+	if p := hxlib.Catch(func() { network.VerifAuthOnPacket(aS, p2, network.VerifSubSignatureRequest, payload, src) }); p != "" {
+		fail("Authenticator.onPacket panicked: %s", p)
+		return
+	}
+	closed, next := p2.IsClosed(), nS.Has(p2)
+	idb := network.VerifPeerIDBytes(p2)
+	coqResp := "None"
+	for _, pk := range c2.take() {
+		if pk.Sub == network.VerifSubSignatureResponse {
+			var m network.SignatureResponse
+			if _, err := codec.MP.UnmarshalFromBytes(pk.Payload, &m); err == nil {
+				coqResp = fmt.Sprintf("(Some %s)", hxlib.CoqBool(m.Error == ""))
+			}
+		}
+	}
+	if next {
+		fail("identity %x assigned on a replayed signature: it was recorded in an earlier, finished session between other parties; the connecting party holds no key of that identity (signature over another session's secret accepted)", idb)
+	}
+	if !next && !closed {
+		fail("peer neither accepted nor closed after the replayed signature message")
+	}
+	if bytes.Equal(ks2, ks) {
+		fail("session secret not unique to this session: the accepting side sent the handshake key of an earlier session again (%x); the dialling side then chooses the secret", ks)
+	}
+	if bytes.Equal(extra1, extra2) {
+		fail("session secret not unique to this session: the session between victim and attacker and the later session between attacker and server derived the same secret")
+	}
+	gt := groundTruth(captured.PublicKey, captured.Signature, extra2)
+	out.nontrivial = true
+	out.coq = fmt.Sprintf("(CHandle true %s %s %d %s (Msg %s %s []) %s %s %s %s %s)", hxlib.CoqBytes(network.VerifSelfID(aS)),
+		coqWait, network.VerifSubSignatureRequest, hxlib.CoqBytes(extra2), hxlib.CoqBytes(captured.PublicKey), hxlib.CoqBytes(captured.Signature),
+		gt.coq(), hxlib.CoqBool(closed), hxlib.CoqBool(next), hxlib.CoqOpt(idb != nil, hxlib.CoqBytes(idb)), coqResp)
+	return
+}
+
+// ---------------------------------------------------------------------------
 // generators
 
 func randKey(r *rand.Rand) string {
@@ -719,11 +959,29 @@ func gen(c *hxlib.Ctx) {
 		}
 		emit(c, "message", in)
 	}
+	// 7. several successive sessions of one authenticator: fresh handshake key every time
+	for i := 0; i < c.N(16); i++ {
+		in := base(r, []string{"fresh-in", "fresh-out"}[i%2])
+		in.Count = 2 + r.Intn(4)
+		in.SameParam = i%4 < 2
+		emit(c, "sessions", in)
+	}
+	// 8. relay over three successive sessions: probe the server's handshake key, let the victim
+	//    dial us and answer with that key, dial the server with the victim's key and replay
+	for i := 0; i < c.N(16); i++ {
+		in := base(r, "relay")
+		in.Count = 1 + r.Intn(3)
+		if i%3 == 2 {
+			in.Src = "other"
+		}
+		emit(c, "three-sessions", in)
+	}
 	// canaries: wrong observations the model must flag
 	h := hxlib.CoqBytes(make([]byte, 32))
 	c.Emit(hxlib.Case{Kind: "canary", Canary: true, Coq: fmt.Sprintf(
 		"(CVerify [2;1] %s [5] (mkT (Some %s) %s %s false) (Some %s) false)",
 		hxlib.CoqBytes(make([]byte, 65)), hxlib.CoqBytes(make([]byte, 65)), h, h, hxlib.CoqBytes(make([]byte, 20)))})
+	c.Emit(hxlib.Case{Kind: "canary", Canary: true, Coq: "(CFresh [[4;1;2];[4;7;7];[4;1;2]] [[4;5];[4;5];[4;5]] [[1];[2];[3]])"})
 	c.Emit(hxlib.Case{Kind: "canary", Canary: true, Coq: fmt.Sprintf(
 		"(CHandle true [9] (Some (768, false)) 768 [5] (Msg [2;1] %s []) (mkT (Some %s) %s %s true) false true (Some [1;2;3]) (Some true))",
 		hxlib.CoqBytes(make([]byte, 65)), hxlib.CoqBytes(make([]byte, 65)), h, h)})
@@ -740,7 +998,7 @@ func replay(raw json.RawMessage) string {
 func main() {
 	hxlib.Main(hxlib.Spec{
 		ID: "C32",
-		Rule: "real handshakes between two Authenticators (random secp256k1 wallets, real ECDH session secrets) up to the signature message, which is then presented to Authenticator.onPacket (accepting side: SignatureRequest, dialling side: SignatureResponse) or to VerifySignature in a chosen variant: honest (3 key formats, RSV/RS, high-S), signed over another session's secret (replay of a captured session), over the empty string / the key / secret[0] / a double hash / random bytes, signed by another key than presented, own identity, every single-byte mutation of signature and key for a sample session plus random ones, lengths 0..128, undecodable payloads, error text, unexpected sub protocol, forged packet source. non-trivial = presented key is a curve point, or the payload is undecodable; distinct = distinct case description",
+		Rule: "real handshakes between two Authenticators (random secp256k1 wallets, real ECDH session secrets) up to the signature message, which is then presented to Authenticator.onPacket (accepting side: SignatureRequest, dialling side: SignatureResponse) or to VerifySignature in a chosen variant: honest (3 key formats, RSV/RS, high-S), signed over another session's secret (replay of a captured session), over the empty string / the key / secret[0] / a double hash / random bytes, signed by another key than presented, own identity, every single-byte mutation of signature and key for a sample session plus random ones, lengths 0..128, undecodable payloads, error text, unexpected sub protocol, forged packet source; 2..5 successive sessions of one authenticator (accepting and dialling, the other end supplying the same or new handshake keys) whose own handshake keys and secrets must be pairwise different; the three-session relay (probe the server's handshake key, answer a dialling victim with it, dial the server with the victim's key and replay its SignatureRequest). non-trivial = presented key is a curve point, or the payload is undecodable; distinct = distinct case description",
 		Shard: 90,
 		Gen:   gen, Replay: replay,
 	})
